@@ -450,7 +450,34 @@ func RunW(s *Srv, sc *WScn) *WHist {
 	r.check(h)
 	h.Items = append(h.Items, r.T...)
 	h.Items = append(h.Items, r.F...)
-	for i, c := range sc.Calls {
+	// caller chains are named in the order in which the commands were (probably) queued: the serial the
+	// library reports for a call tells its place in the write order; the schedule search tries the calls
+	// in chain-name order first (a hint only: every order is still explored)
+	rank := make([]int, len(sc.Calls))
+	for i := range rank {
+		rank[i] = i
+	}
+	pos := func(c *WCall) int64 {
+		for _, f := range r.frames { // its command frame, whatever the result was
+			if f.Bad == "" && f.ID == c.Cmd && string(f.Body) == string(c.Body) {
+				return int64((int(f.Serial) - h.S0 + 65536) % 65536)
+			}
+		}
+		switch c.Res.Kind {
+		case "resp", "timeout", "wfail":
+			return int64((int(c.Res.PSeq) - h.S0 + 65536) % 65536)
+		}
+		return 1 << 30
+	}
+	sort.SliceStable(rank, func(a, b int) bool {
+		ca, cb := sc.Calls[rank[a]], sc.Calls[rank[b]]
+		if pa, pb := pos(ca), pos(cb); pa != pb {
+			return pa < pb
+		}
+		return ca.Inv < cb.Inv
+	})
+	for n, i := range rank {
+		c := sc.Calls[i]
 		tmo := 1
 		if c.Timeout < 0 {
 			tmo = 0
@@ -459,9 +486,9 @@ func RunW(s *Srv, sc *WScn) *WHist {
 		if !c.Done {
 			hi = farFuture
 		}
-		h.Items = append(h.Items, fmt.Sprintf("K%d/c:%d:%d/%d/%d", i, c.Cmd, tmo, c.Inv, hi))
+		h.Items = append(h.Items, fmt.Sprintf("K%02d/c:%d:%d/%d/%d", n, c.Cmd, tmo, c.Inv, hi))
 		if c.Done {
-			h.Items = append(h.Items, fmt.Sprintf("K%d/ret:%s/%d/%d", i, resTok(c.Res), c.Inv, hi))
+			h.Items = append(h.Items, fmt.Sprintf("K%02d/ret:%s/%d/%d", n, resTok(c.Res), c.Inv, hi))
 		}
 		h.Kinds[c.Res.Kind]++
 	}
